@@ -3,6 +3,7 @@ package main
 // Translation of contract expressions to SMT terms.
 
 import (
+	"regexp"
 	"fmt"
 	"go/token"
 	"go/types"
@@ -324,9 +325,16 @@ func (t *trans) expr(e cExpr) (string, vtype) {
 			nb[k] = true
 		}
 		var guards []string
+		var bnames []string
 		for _, b := range x.Vars {
 			vt := t.resolveType(b.Type)
 			name := "q_" + b.Name
+			// hygiene: a macro argument may mention a variable of an enclosing quantifier with the same source name;
+			// the inner binder must not capture it
+			for n := 2; nb[name]; n++ {
+				name = fmt.Sprintf("q_%s_%d", b.Name, n)
+			}
+			bnames = append(bnames, name)
 			bs = append(bs, fmt.Sprintf("(%s %s)", name, vt.sort))
 			nv[b.Name] = tvar{name, vt}
 			nb[name] = true
@@ -351,10 +359,6 @@ func (t *trans) expr(e cExpr) (string, vtype) {
 		q := "exists"
 		if x.Forall {
 			q = "forall"
-		}
-		var bnames []string
-		for _, b := range x.Vars {
-			bnames = append(bnames, "q_"+b.Name)
 		}
 		if pats := choosePatterns(body, bnames); pats != "" {
 			return fmt.Sprintf("(%s (%s) (! %s %s))", q, strings.Join(bs, " "), body, pats), vtype{"Bool", nil}
@@ -602,7 +606,6 @@ func (t *trans) call(x *cCall) (string, vtype) {
 		}
 		return fmt.Sprintf("(and (distinct %s nil) (>= (born %s) %s))", s, s, t.old.alloc), boolT
 	case "allocCounter": // the allocation counter of the current state (objects allocated so far have born < allocCounter())
-		c.needWF = true // reasoning about allocation times of values read from the heap
 		return t.cur.alloc, intT
 	case "allocated":
 		s, _ := arg(0)
@@ -1031,12 +1034,24 @@ func (t *trans) baseApp(sd *specDef, fp []string, plain []string, x *cCall, ret 
 		switch pt.sort {
 		case "Ref":
 			for _, o := range objs {
+				if o.escaped {
+					if c.typeReaches(pt.gt, o.typ) {
+						return "", false
+					}
+					continue
+				}
 				if c.mayPointInto(pt.gt, o.typ) {
 					guards = append(guards, fmt.Sprintf("(distinct (born %s) %s)", a, o.term))
 				}
 			}
 		case "Slice":
 			for _, o := range objs {
+				if o.escaped {
+					if c.typeReaches(pt.gt, o.typ) {
+						return "", false
+					}
+					continue
+				}
 				if c.mayPointInto(pt.gt, o.typ) {
 					guards = append(guards, fmt.Sprintf("(distinct (born (sdata %s)) %s)", a, o.term))
 				}
@@ -1144,9 +1159,120 @@ func (c *smtctx) mayPointInto(argT, objT types.Type) bool {
 	return false
 }
 
+// typeReaches: can a value of static type argT reach, by following pointers, interfaces, slices, maps and channels
+// any number of times, a pointer into an object allocated with type objT? Decided on types alone (Go's type safety:
+// a *X or an interface holding a *X can only point to a variable of type X, which lies inside an objT object only if
+// X is a by-value component of objT; a slice can only point into an array, i.e. into a backing store whose element
+// type is its own). Interfaces from outside the module, function values and unsafe pointers count as reaching
+// everything.
+func (c *smtctx) typeReaches(argT, objT types.Type) bool {
+	if argT == nil || objT == nil {
+		return true
+	}
+	key := types.TypeString(argT, nil) + " => " + types.TypeString(objT, nil)
+	if c.w.reachCache == nil {
+		c.w.reachCache = map[string]bool{}
+	}
+	if r, ok := c.w.reachCache[key]; ok {
+		return r
+	}
+	comps := map[string]bool{}
+	arrays := map[string]bool{} // element types of arrays held by value
+	var rec func(t types.Type)
+	rec = func(t types.Type) {
+		k := types.TypeString(t, nil)
+		if comps[k] {
+			return
+		}
+		comps[k] = true
+		switch u := t.Underlying().(type) {
+		case *types.Struct:
+			for i := 0; i < u.NumFields(); i++ {
+				rec(u.Field(i).Type())
+			}
+		case *types.Array:
+			arrays[types.TypeString(u.Elem(), nil)] = true
+			rec(u.Elem())
+		}
+	}
+	rec(objT)
+	objKey := types.TypeString(objT, nil)
+	seen := map[string]bool{}
+	reaches := false
+	var walk func(t types.Type)
+	walk = func(t types.Type) {
+		if reaches || t == nil {
+			return
+		}
+		k := types.TypeString(t, nil)
+		if seen[k] {
+			return
+		}
+		seen[k] = true
+		switch u := t.Underlying().(type) {
+		case *types.Basic:
+			if u.Kind() == types.UnsafePointer {
+				reaches = true
+			}
+		case *types.Pointer:
+			if comps[types.TypeString(u.Elem(), nil)] {
+				reaches = true
+				return
+			}
+			walk(u.Elem())
+		case *types.Interface:
+			named, ok := t.(*types.Named)
+			if !ok || named.Obj().Pkg() == nil || !c.w.inModule(named.Obj().Pkg().Path()) {
+				if ok && named.Obj().Pkg() == nil && named.Obj().Name() == "error" {
+					return // error values are built by fmt/errors: they hold no pointers into module objects
+				}
+				reaches = true
+				return
+			}
+			impls, known := c.w.impls[named.Obj().Pkg().Path()+"."+named.Obj().Name()]
+			if !known {
+				reaches = true
+				return
+			}
+			for _, im := range impls {
+				if comps[types.TypeString(im, nil)] {
+					reaches = true
+					return
+				}
+				walk(im)
+			}
+		case *types.Slice:
+			ek := types.TypeString(u.Elem(), nil)
+			if ek == objKey || arrays[ek] {
+				reaches = true
+				return
+			}
+			walk(u.Elem())
+		case *types.Array:
+			walk(u.Elem())
+		case *types.Map:
+			walk(u.Key())
+			walk(u.Elem())
+		case *types.Chan:
+			walk(u.Elem())
+		case *types.Struct:
+			for i := 0; i < u.NumFields(); i++ {
+				walk(u.Field(i).Type())
+			}
+		case *types.Signature:
+			reaches = true
+		}
+	}
+	walk(argT)
+	c.w.reachCache[key] = reaches
+	return reaches
+}
+
 // choosePatterns picks E-matching triggers for a quantified formula: heap reads, slice element addresses and
 // spec applications that mention the bound variables. Addresses are built from datatype selectors (fld/elem are
 // macros), on which the solvers' own trigger inference does badly.
+var quantVarRe = regexp.MustCompile(`\b(q_[A-Za-z0-9_]+|fa![a-z]+|sk![a-z]+|wf![a-z]+)\b`)
+
 func choosePatterns(body string, bound []string) string {
 	type cand struct {
 		term string
@@ -1190,6 +1316,23 @@ func choosePatterns(body string, bound []string) string {
 				}
 			}
 			if len(vs) == 0 || seen[sub] {
+				continue
+			}
+			// a trigger must not mention variables bound by an inner quantifier
+			inner := false
+			for _, m := range quantVarRe.FindAllString(sub, -1) {
+				isBound := false
+				for _, b := range bound {
+					if b == m {
+						isBound = true
+					}
+				}
+				if !isBound {
+					inner = true
+					break
+				}
+			}
+			if inner {
 				continue
 			}
 			seen[sub] = true
